@@ -302,7 +302,12 @@ def run_sharded(ctx, argv_for_shard, shard_paths, timeout=3000):
             merged['drift'][k] = merged['drift'].get(k, 0) + v
         merged.setdefault('drift_examples', [])
         merged['drift_examples'] += (r.get('drift_examples') or [])[:max(0, 3 - len(merged['drift_examples']))]
-        for k in ('calls', 'clean_runs'):
+        for k, v in (r.get('known') or {}).items():
+            merged.setdefault('known', {})
+            merged['known'][k] = merged['known'].get(k, 0) + v
+        for k, v in (r.get('known_examples') or {}).items():
+            merged.setdefault('known_examples', {}).setdefault(k, v)
+        for k in ('calls', 'clean_runs', 'clean_cases', 'deviation_cases', 'repaired_like', 'unreplayable_order'):
             if k in r:
                 merged[k] = merged.get(k, 0) + r[k]
     return merged
